@@ -378,7 +378,7 @@ def make_column_definition_41(
             parts.append(uint_len(0))
         else:
             default_values = server_charset.encode(default)
-            parts.extend([uint_len(len(default_values)), str_len(default_values)])
+            parts.append(str_len(default_values))
     return _concat(*parts)
 
 
